@@ -19,7 +19,8 @@ LEVEL_TEXT = ('PARTIAL. Decided statically, for every shipped family and all val
               'per-index constants / table column) and must give len(names) = len(lower) = len(upper) = declared '
               'dimension, lower < upper elementwise, exactly one objective, and a known optimum inside the box - for '
               'table-driven optima over every row of the shipped tables; table shapes match the NUM_* constants and '
-              'the index expressions used. NOT decided: optimum-in-box for generated GKLS points, and the agreement '
+              'the index expressions used; a shipped Calculate returns a point-independent penalty only strictly '
+              'outside a bound (closed declared box). NOT decided: optimum-in-box for generated GKLS points, and the agreement '
               'of the min/max/Lipschitz tables with the functions (numerical).')
 EXPLANATION = ('Path summaries of each constructor are replayed into abstract arrays; lengths are compared as '
                'expressions in the constructor argument, fills as exact constants; literal tables are read from the '
@@ -402,9 +403,89 @@ def r18_4(ctx: Ctx):
                   f'optimum is not inside it', key=f'{rid}::{fn.short}::mirror-guard::{" ".join(ast.unparse(n.body[0]).split())[:60]}')
 
 
+def _point_vs_bound(l: Lit, pt_key) -> bool:
+    """Literal of the form  +-(point coordinate - bound) + c  op 0  with a point-free bound term."""
+    if l.kind != 'cmp' or len(l.rf.den) != 1 or list(l.rf.den.keys()) != [()]:
+        return False
+    has_pt = has_other = False
+    for mono, coef in l.rf.num.items():
+        if not mono:
+            continue
+        if len(mono) != 1 or mono[0][1] != 1:
+            return False
+        a = mono[0][0]
+        if C.mentions(a, pt_key):
+            # the coordinate itself, not a function of it
+            if not (isinstance(a, tuple) and a and a[0] == 'sub'):
+                return False
+            has_pt = True
+        else:
+            has_other = True
+    return has_pt and has_other
+
+
+def r18_5(ctx: Ctx):
+    rid = 'R18.5'
+    ctx.rule(rid, 'closed domain: a path of a shipped Calculate that stores a point-independent value (a penalty) '
+                  'under comparisons of point coordinates with bounds must be taken only strictly outside a bound; '
+                  'a non-strict boundary test makes the function disagree with its published extrema tables on the '
+                  'boundary of the declared (closed) box')
+    n = n_pen = 0
+    for cls in shipped_problems(ctx):
+        calc = cls.lookup('Calculate')
+        if calc is None or len(calc.param_names) < 3:
+            continue
+        ex = ctx.explorer(inline=lambda f, st: f.module.name.startswith('iOpt.problem'), unroll=1, max_paths=20000)
+        try:
+            paths = C.normal_paths(ex.explore(calc))
+        except AnalysisError as e:
+            ctx.note(f'{rid}: {cls.name}.Calculate not enumerated ({e}); the closed-domain clause is not decided '
+                     f'for this family')
+            continue
+        pt = var(calc.param_names[1])
+        for p in paths:
+            sts = [s_ for s_ in p.stores() if s_.d['tkind'] == 'attr' and s_.d['field'] == 'value']
+            if not sts:
+                continue
+            n += 1
+            v = sts[-1].d['value']
+            if C.mentions(v, key_of(pt)):
+                continue
+            # a penalty is a number (class / module constants are folded) or a plain attribute; values that only
+            # *look* point-independent because a coordinate loop was taken zero times are table data (subscripts)
+            va = v.single_atom() if isinstance(v, RF) else None
+            is_penalty = isinstance(v, RF) and (v.const_value() is not None or
+                                                (isinstance(va, tuple) and va and va[0] == 'attr'))
+            if not is_penalty:
+                continue
+            # paths on which some loop makes no trip at all are artefacts of the bounded unrolling (a sum over zero
+            # terms is point-independent); the one-trip variant of the same path is examined instead
+            tripped = {id(e.node) for e in p.events if e.kind == 'iter'}
+            if any(e.kind == 'loopexit' and id(e.node) not in tripped for e in p.events):
+                continue
+            lits = [l for l in p.guards if _point_vs_bound(l, key_of(pt))]
+            if not lits:
+                continue
+            n_pen += 1
+            strict = [l for l in lits if l.op == '<']
+            f = sts[-1].func
+            ctx.check(bool(strict), rid, calc.short, f.loc(sts[-1].node),
+                      'the point-independent value is returned only strictly beyond a bound',
+                      f'{calc.short} returns the point-independent value {C.fmt(v)[:40]} on a path whose only '
+                      f'coordinate/bound tests are non-strict ({[repr(l) for l in lits][:3]}): a point lying exactly '
+                      f'on the boundary of the declared box gets the penalty instead of the function value, so the '
+                      f'function no longer agrees with its published minima/maxima on the closed box',
+                      key=f'{rid}::{calc.short}::penalty-on-boundary')
+    ctx.floor(rid, 'value-storing paths of shipped Calculate methods', n, 8)
+    ctx.analysed['R18.5_penalty_paths'] = n_pen
+    ctx.floor(rid, 'penalty paths guarded by coordinate/bound tests (positive control: GKLS)', n_pen, 1)
+
+
 def check(ctx: Ctx):
     if C.want(ctx, 'R18.4'):
         r18_4(ctx)
+    if C.want(ctx, 'R18.5'):
+        r18_5(ctx)
     ctx.rule('R18.1', 'per family, for all constructor arguments: len(names) = len(lower) = len(upper) = dimension; '
                       'lower < upper; one objective')
     ctx.rule('R18.2', 'known optimum inside the box: literal points directly, table-driven points over every row')
